@@ -109,9 +109,9 @@ var checks = map[string]*Check{
 		RealStub:    coreRealStub,
 	},
 	"C03": {
-		Legs:        []Leg{{World: "C03", Weight: 3}, {World: "C03", Race: true, Weight: 2}},
-		Probes:      []string{"interim_1xx", "several_declared_trailers", "trailers", "one_byte_first_write", "bodiless_response"},
-		Rule:        "Raw client -> real proxy -> real agent -> raw scripted backend writing exact wire bytes with scripted pacing: final status 200..599 (incl. 204/304 and HEAD), 0..2 interim 1xx, 0..7 header fields with repeats (Set-Cookie), empty and long values, hop-by-hop fields, framing by Content-Length / chunked / close, bodies 0..70 KiB (thorough ..4 MiB) written in pieces from 1 byte, 0..3 declared trailers (one comma-joined Trailer field or one field each) and undeclared trailers; 1..4 responses in flight; race-detector leg for the maps shared between handler and serialiser.",
+		Legs:        []Leg{{World: "C03", Weight: 3}, {World: "C03", Race: true, Weight: 2}, {World: "C03h2", Weight: 2}, {World: "C03h2", Race: true, Weight: 1}},
+		Probes:      []string{"interim_1xx", "several_declared_trailers", "trailers", "one_byte_first_write", "bodiless_response", "http2_backend"},
+		Rule:        "Raw client -> real proxy -> real agent -> raw scripted backend writing exact wire bytes with scripted pacing: final status 200..599 (incl. 204/304 and HEAD), 0..2 interim 1xx, 0..7 header fields with repeats (Set-Cookie), empty and long values, hop-by-hop fields, framing by Content-Length / chunked / close, bodies 0..70 KiB (thorough ..4 MiB) written in pieces from 1 byte, 0..3 declared trailers (one comma-joined Trailer field or one field each) and undeclared trailers; 1..4 responses in flight; race-detector leg for the maps shared between handler and serialiser. Second pair of legs: the same oracle with an HTTP/2 cleartext backend (agent -force-http2, real http.Server behind h2c; no 1xx, no hop-by-hop fields, no close-delimited framing).",
 		Assumptions: commonAssumptions,
 		RealStub:    coreRealStub,
 	},
